@@ -31,7 +31,8 @@ AllArgsDistinct(c) == \A i \in 1..Len(c.gates) : ArgsDistinct(c.gates[i])
 CountKind(c, t) == Cardinality({i \in 1..Len(c.gates) : c.gates[i].t = t})
 
 \* ---------- Circuit::random()  (generate.rs:123-228) ----------
-\* p = [qubits, depth, p_cnot, p_cz, p_h, p_s, p_t], probabilities in percent.  Every one of the `depth`
+\* p = [qubits, depth, p_cnot, p_cz, p_h, p_s, p_t (, via)], probabilities in percent (via: which builder methods set
+\* them; part of the determinism key only).  Every one of the `depth`
 \* rounds draws a number in [0,1) and pushes the gate kind whose probability interval contains it; a draw
 \* beyond the total pushes nothing: the number of gates is `depth` exactly when the probabilities add up to 1.
 RCTotal(p) == p.p_cnot + p.p_cz + p.p_h + p.p_s + p.p_t
